@@ -512,7 +512,21 @@ fn gen_num(rng: &mut Rng, finite_only: bool) -> f64 {
             8 => rng.uniform(-1.0, 1.0),
             // 17-significant-digit decimals and classic hard cases for decimal round trips
             9 => *rng.pick(&[0.1, 0.3, 1.0 / 3.0, 2.2250738585072011e-308, 1.7976931348623157e308, 9007199254740993.0, 5e-324, 1e23, 8.41e21, 2.0f64.powi(-1074) * 3.0]),
-            10 => rng.uniform(-1e15, 1e15),
+            10 => match rng.below(6) {
+                0 => rng.uniform(-1e15, 1e15),
+                // exactly representable in a narrower float (an "is it lossless as f32/f16?" shortcut
+                // that then prints or stores the narrow value)
+                4 => f64::from(f32::from_bits(rng.next_u64() as u32)),
+                5 => f64::from(*rng.pick(&[0.1f32, 0.2, 0.3, 1.1, 3.3, 1e-3, 123.456, 1e6 + 0.1, 16777216.0, 0.007])) * if rng.chance(1, 2) { 1.0 } else { -1.0 },
+                // whole numbers across magnitudes: integer detours (i64/u64/i128) break at their limits
+                1 => {
+                    let k = rng.usize_in(0, 130) as i32;
+                    let b = 2f64.powi(k);
+                    (b + *rng.pick(&[0.0, 1.0, -1.0, 2048.0, -1024.0])) * if rng.chance(1, 2) { 1.0 } else { -1.0 }
+                }
+                2 => *rng.pick(&[9223372036854775807.0, -9223372036854775808.0, 18446744073709551615.0, 9223372036854774784.0, 18446744073709549568.0, 4294967296.0, 2147483648.0, -2147483649.0, 16777217.0, 3.4028234663852886e38, 3.4028235677973366e38, 65504.0, 65520.0]),
+                _ => (rng.next_u64() >> rng.below(12)) as f64,
+            },
             _ => *rng.pick(&[f64::INFINITY, f64::NEG_INFINITY]),
         };
         if x.is_nan() || (finite_only && !x.is_finite()) {
@@ -550,11 +564,25 @@ fn gen_scn(rng: &mut Rng, _tier: Tier) -> PipeScn {
             1..=3 => 1,
             4..=6 => 2,
             7..=8 => rng.usize_in(3, 6),
-            _ => rng.usize_in(7, 40),
+            _ => match rng.below(40) {
+                0..=33 => rng.usize_in(7, 40),
+                // lengths a narrowed length prefix or a chunked encoder could hinge on
+                34..=37 => *rng.pick(&[63usize, 64, 65, 127, 128, 255, 256, 257]),
+                38 => *rng.pick(&[1000usize, 4095, 4096, 4097]),
+                _ => {
+                    if rng.chance(1, 20) {
+                        *rng.pick(&[65535usize, 65536, 65537])
+                    } else {
+                        rng.usize_in(41, 300)
+                    }
+                }
+            },
         }
     } else {
         0
     };
+    // very long functions only over the smallest piece types (bounded wire size)
+    let kind = if nseg > 300 { *rng.pick(&[Kind::P(0), Kind::P(1), Kind::L(0), Kind::I(0)]) } else { kind };
     let mut scn = PipeScn {
         shape,
         kind,
@@ -572,6 +600,23 @@ fn gen_scn(rng: &mut Rng, _tier: Tier) -> PipeScn {
     let n = expected_len(&scn);
     let finite_only = matches!(codec, Codec::Json | Codec::JsonValue);
     scn.nums = (0..n).map(|_| gen_num(rng, finite_only)).collect();
+    // equal fields (a codec or a custom impl that deduplicates / compares fields)
+    match rng.below(12) {
+        0 if n > 0 => {
+            let v = scn.nums[0];
+            for x in scn.nums.iter_mut() {
+                *x = v;
+            }
+        }
+        1 if n > 1 => {
+            for i in 1..n {
+                if rng.chance(1, 2) {
+                    scn.nums[i] = scn.nums[i - 1];
+                }
+            }
+        }
+        _ => {}
+    }
     scn
 }
 
